@@ -14,10 +14,13 @@ pub trait Controller: Send + Sync {
     /// Like `point`, but the caller is spinning: it should not run again before some other
     /// thread has made progress.
     fn yield_point(&self, name: &'static str);
-    /// The calling thread is about to acquire the named (modelled) lock.
-    fn lock_acquire(&self, name: &'static str);
-    /// The calling thread has released the named (modelled) lock.
-    fn lock_release(&self, name: &'static str);
+    /// The calling thread is about to block on the lock with this identity (the address of the
+    /// lock, stable for its lifetime); `exclusive` is false for the read side of a `RwLock`.
+    fn lock_acquire(&self, lock: usize, exclusive: bool, what: &'static str);
+    /// The calling thread took the lock without waiting (a successful `try_lock`).
+    fn lock_taken(&self, lock: usize, exclusive: bool);
+    /// The calling thread has released the lock.
+    fn lock_release(&self, lock: usize, exclusive: bool);
 }
 
 thread_local! {
@@ -48,27 +51,170 @@ pub fn yield_point(name: &'static str) {
     }
 }
 
-/// Declared *before* a lock guard (so it is dropped after it): makes acquisition and release
-/// of that lock visible to the controller.
-pub struct LockScope {
-    name: &'static str,
-    controller: Option<Arc<dyn Controller>>,
-}
+/// `Mutex` and `RwLock` with the std API whose acquisitions and releases are visible to the
+/// controller. Verification builds use these in place of the std types (see the `use` lines
+/// guarded by `cfg(crux_verif)`), so every lock site - `lock`, `try_lock`, `read`, `write`, ... - is
+/// a schedule point whoever wrote it. Without a controller they behave exactly like the std types.
+pub mod sync {
+    use super::{current, Controller};
+    use std::mem::ManuallyDrop;
+    use std::ops::{Deref, DerefMut};
+    use std::sync::{Arc, LockResult, PoisonError, TryLockError, TryLockResult};
 
-impl LockScope {
-    pub fn new(name: &'static str) -> Self {
-        let controller = current();
-        if let Some(c) = &controller {
-            c.lock_acquire(name);
+    type Ctl = Option<Arc<dyn Controller>>;
+
+    fn map<G, H>(r: LockResult<G>, f: impl FnOnce(G) -> H) -> LockResult<H> {
+        match r {
+            Ok(g) => Ok(f(g)),
+            Err(p) => Err(PoisonError::new(f(p.into_inner()))),
         }
-        Self { name, controller }
     }
-}
 
-impl Drop for LockScope {
-    fn drop(&mut self) {
-        if let Some(c) = &self.controller {
-            c.lock_release(self.name);
+    fn try_map<G, H>(r: TryLockResult<G>, f: impl FnOnce(G) -> H) -> TryLockResult<H> {
+        match r {
+            Ok(g) => Ok(f(g)),
+            Err(TryLockError::WouldBlock) => Err(TryLockError::WouldBlock),
+            Err(TryLockError::Poisoned(p)) => {
+                Err(TryLockError::Poisoned(PoisonError::new(f(p.into_inner()))))
+            }
+        }
+    }
+
+    /// Releases the std guard *before* telling the controller, so that whoever is scheduled
+    /// next finds the real lock free.
+    pub struct Guard<G> {
+        guard: ManuallyDrop<G>,
+        lock: usize,
+        exclusive: bool,
+        ctl: Ctl,
+    }
+
+    impl<G> Guard<G> {
+        fn new(guard: G, lock: usize, exclusive: bool, ctl: Ctl) -> Self {
+            Self {
+                guard: ManuallyDrop::new(guard),
+                lock,
+                exclusive,
+                ctl,
+            }
+        }
+    }
+
+    impl<G> Drop for Guard<G> {
+        fn drop(&mut self) {
+            // SAFETY: the guard is not used again after this
+            unsafe { ManuallyDrop::drop(&mut self.guard) };
+            if let Some(c) = &self.ctl {
+                c.lock_release(self.lock, self.exclusive);
+            }
+        }
+    }
+
+    impl<G: Deref> Deref for Guard<G> {
+        type Target = G::Target;
+
+        fn deref(&self) -> &Self::Target {
+            &self.guard
+        }
+    }
+
+    impl<G: DerefMut> DerefMut for Guard<G> {
+        fn deref_mut(&mut self) -> &mut Self::Target {
+            &mut self.guard
+        }
+    }
+
+    pub type MutexGuard<'a, T> = Guard<std::sync::MutexGuard<'a, T>>;
+    pub type RwLockReadGuard<'a, T> = Guard<std::sync::RwLockReadGuard<'a, T>>;
+    pub type RwLockWriteGuard<'a, T> = Guard<std::sync::RwLockWriteGuard<'a, T>>;
+
+    #[derive(Debug, Default)]
+    pub struct Mutex<T: ?Sized>(std::sync::Mutex<T>);
+
+    impl<T> Mutex<T> {
+        pub fn new(t: T) -> Self {
+            Self(std::sync::Mutex::new(t))
+        }
+    }
+
+    impl<T: ?Sized> Mutex<T> {
+        fn id(&self) -> usize {
+            std::ptr::addr_of!(self.0).cast::<()>() as usize
+        }
+
+        pub fn lock(&self) -> LockResult<MutexGuard<'_, T>> {
+            let (ctl, id) = (current(), self.id());
+            if let Some(c) = &ctl {
+                c.lock_acquire(id, true, "mutex.lock");
+            }
+            map(self.0.lock(), |g| Guard::new(g, id, true, ctl))
+        }
+
+        pub fn try_lock(&self) -> TryLockResult<MutexGuard<'_, T>> {
+            let (ctl, id) = (current(), self.id());
+            if let Some(c) = &ctl {
+                c.point("mutex.try_lock");
+            }
+            let r = self.0.try_lock();
+            if let (Some(c), false) = (&ctl, matches!(r, Err(TryLockError::WouldBlock))) {
+                c.lock_taken(id, true);
+            }
+            try_map(r, |g| Guard::new(g, id, true, ctl))
+        }
+    }
+
+    #[derive(Debug, Default)]
+    pub struct RwLock<T: ?Sized>(std::sync::RwLock<T>);
+
+    impl<T> RwLock<T> {
+        pub fn new(t: T) -> Self {
+            Self(std::sync::RwLock::new(t))
+        }
+    }
+
+    impl<T: ?Sized> RwLock<T> {
+        fn id(&self) -> usize {
+            std::ptr::addr_of!(self.0).cast::<()>() as usize
+        }
+
+        pub fn read(&self) -> LockResult<RwLockReadGuard<'_, T>> {
+            let (ctl, id) = (current(), self.id());
+            if let Some(c) = &ctl {
+                c.lock_acquire(id, false, "rwlock.read");
+            }
+            map(self.0.read(), |g| Guard::new(g, id, false, ctl))
+        }
+
+        pub fn write(&self) -> LockResult<RwLockWriteGuard<'_, T>> {
+            let (ctl, id) = (current(), self.id());
+            if let Some(c) = &ctl {
+                c.lock_acquire(id, true, "rwlock.write");
+            }
+            map(self.0.write(), |g| Guard::new(g, id, true, ctl))
+        }
+
+        pub fn try_read(&self) -> TryLockResult<RwLockReadGuard<'_, T>> {
+            let (ctl, id) = (current(), self.id());
+            if let Some(c) = &ctl {
+                c.point("rwlock.try_read");
+            }
+            let r = self.0.try_read();
+            if let (Some(c), false) = (&ctl, matches!(r, Err(TryLockError::WouldBlock))) {
+                c.lock_taken(id, false);
+            }
+            try_map(r, |g| Guard::new(g, id, false, ctl))
+        }
+
+        pub fn try_write(&self) -> TryLockResult<RwLockWriteGuard<'_, T>> {
+            let (ctl, id) = (current(), self.id());
+            if let Some(c) = &ctl {
+                c.point("rwlock.try_write");
+            }
+            let r = self.0.try_write();
+            if let (Some(c), false) = (&ctl, matches!(r, Err(TryLockError::WouldBlock))) {
+                c.lock_taken(id, true);
+            }
+            try_map(r, |g| Guard::new(g, id, true, ctl))
         }
     }
 }
